@@ -193,11 +193,15 @@ class MultiTerm(qcore.Query):
 
     def estimate_size(self, ixreader):
         fieldname = self.field()
+        if fieldname not in ixreader.schema:
+            return 0
         return sum(ixreader.doc_frequency(fieldname, btext)
                    for btext in self._btexts(ixreader))
 
     def estimate_min_size(self, ixreader):
         fieldname = self.field()
+        if fieldname not in ixreader.schema:
+            return 0
         return min(ixreader.doc_frequency(fieldname, text)
                    for text in self._btexts(ixreader))
 
@@ -206,6 +210,10 @@ class MultiTerm(qcore.Query):
 
         fieldname = self.field()
         constantscore = self.constantscore
+
+        # Like Term.matcher(): a field the index doesn't have can't match
+        if fieldname not in searcher.schema:
+            return matching.NullMatcher()
 
         reader = searcher.reader()
         qs = [Term(fieldname, word) for word in self._btexts(reader)
